@@ -13,6 +13,8 @@ import (
 	"go/parser"
 	"go/token"
 	"go/types"
+	"os"
+	"path/filepath"
 	"strings"
 
 	"verifharness/sx"
@@ -80,6 +82,8 @@ func callOf(e ast.Expr) (*ast.CallExpr, string) {
 type facts struct {
 	readRequiresConsistent, writeIsCAS, casPairIsReadPair, casOkChecked, errorsReturned bool
 	serviceDelegates, startCancelledOnError, wrapsAtMax, wrapEvaluated                  bool
+	// the consumer: before_event of core/environment/environment.go (startFacts)
+	startReachedAfterNegHooksOnly, startCallUnconditional, startNumberAdopted, onlyStartSetsNumber bool
 }
 
 func consulFacts(repo string, ft *facts) error {
@@ -349,6 +353,269 @@ func consumerFacts(repo string, ft *facts) error {
 	return nil
 }
 
+// ---- the consumer: how before_event obtains, adopts and publishes the number ----------------------
+//
+// Shape required of the `"before_event": func(_ context.Context, e *fsm.Event) {…}` callback in
+// core/environment/environment.go (L = its top-level statement list, B = the statement list of
+// the `if e.Event == "START_ACTIVITY" {…}` found IN L):
+//
+//	startReachedAfterNegHooksOnly  every `return` in L before that `if` sits in an
+//	                               `if X != nil {…}` of L whose X was assigned in L from
+//	                               `….handleHooksWithNegativeWeights(…)`
+//	startCallUnconditional         B itself contains `n, err := the.ConfSvc().NewRunNumber()` (a
+//	                               statement OF B: not under a further if/switch/for/select/func),
+//	                               no return/branch statement precedes it in B, and it is the only
+//	                               NewRunNumber call of the whole callback
+//	startNumberAdopted             n is never assigned again, incremented or address-taken in B;
+//	                               statements OF B after the call: `env.currentRunNumber = n`,
+//	                               `s := strconv.FormatUint(uint64(n), 10)`, `….Set("run_number", s)`
+//	                               and an expression statement holding `Ev_RunEvent{… RunNumber: n …}`
+//	onlyStartSetsNumber            in package core/environment (the field is unexported; test files
+//	                               and files under a `verif` build constraint aside) that assignment
+//	                               is the only one giving `.currentRunNumber` a value other than the
+//	                               literal 0; the field is never incremented, address-taken or set
+//	                               in a composite literal
+func startFacts(repo string, ft *facts) error {
+	path := repo + "/core/environment/environment.go"
+	f, err := parseFile(path)
+	if err != nil {
+		return err
+	}
+	var cb *ast.FuncLit
+	ast.Inspect(f, func(x ast.Node) bool {
+		if kv, ok := x.(*ast.KeyValueExpr); ok {
+			if bl, isB := kv.Key.(*ast.BasicLit); isB && bl.Value == `"before_event"` {
+				if fl, isF := kv.Value.(*ast.FuncLit); isF && cb == nil {
+					cb = fl
+				}
+			}
+		}
+		return true
+	})
+	if cb == nil || cb.Type.Params == nil || len(cb.Type.Params.List) != 2 || len(cb.Type.Params.List[1].Names) != 1 {
+		return fmt.Errorf("before_event callback not found")
+	}
+	ev := cb.Type.Params.List[1].Names[0].Name
+	L := cb.Body.List
+
+	// the START_ACTIVITY branch, a statement of L
+	at := -1
+	for i, s := range L {
+		if ifs, ok := s.(*ast.IfStmt); ok && ifs.Init == nil && es(ifs.Cond) == ev+`.Event == "START_ACTIVITY"` {
+			if at >= 0 {
+				return fmt.Errorf("two START_ACTIVITY branches in before_event")
+			}
+			at = i
+		}
+	}
+	if at < 0 {
+		return fmt.Errorf("no top-level `if %s.Event == \"START_ACTIVITY\"` in before_event", ev)
+	}
+	B := L[at].(*ast.IfStmt).Body.List
+
+	// (a) what can keep the flow from reaching the branch
+	negErr := map[string]bool{}
+	ft.startReachedAfterNegHooksOnly = true
+	for _, s := range L[:at] {
+		if as, ok := s.(*ast.AssignStmt); ok && len(as.Lhs) == 1 && len(as.Rhs) == 1 {
+			if c, fun := callOf(as.Rhs[0]); c != nil && strings.HasSuffix(fun, ".handleHooksWithNegativeWeights") {
+				negErr[es(as.Lhs[0])] = true
+				continue
+			}
+		}
+		if ifs, ok := s.(*ast.IfStmt); ok && ifs.Init == nil && ifs.Else == nil {
+			if be, isB := ifs.Cond.(*ast.BinaryExpr); isB && be.Op == token.NEQ && es(be.Y) == "nil" && negErr[es(be.X)] {
+				continue // the cancel-on-negative-weight-hook-error block: may return
+			}
+		}
+		if leavesFlow(s) {
+			ft.startReachedAfterNegHooksOnly = false
+		}
+	}
+	ft.startReachedAfterNegHooksOnly = ft.startReachedAfterNegHooksOnly && len(negErr) == 1
+
+	// (b) the call
+	nCalls := 0
+	ast.Inspect(cb.Body, func(x ast.Node) bool {
+		if c, fun := callOf(asExpr(x)); c != nil && strings.HasSuffix(fun, ".NewRunNumber") {
+			nCalls++
+		}
+		return true
+	})
+	k, numVar := -1, ""
+	var adoptPos token.Pos
+	for i, s := range B {
+		as, ok := s.(*ast.AssignStmt)
+		if !ok || len(as.Lhs) != 2 || len(as.Rhs) != 1 {
+			continue
+		}
+		if c, fun := callOf(as.Rhs[0]); c != nil && fun == "the.ConfSvc().NewRunNumber" && len(c.Args) == 0 {
+			if id, isId := as.Lhs[0].(*ast.Ident); isId && id.Name != "_" && k < 0 {
+				k, numVar = i, id.Name
+			}
+		}
+	}
+	ft.startCallUnconditional = k >= 0 && nCalls == 1
+	for _, s := range B[:max(k, 0)] {
+		if leavesFlow(s) {
+			ft.startCallUnconditional = false
+		}
+	}
+
+	// (c) what becomes of the result
+	if k >= 0 {
+		reassigned := false
+		for i, s := range B {
+			ast.Inspect(s, func(x ast.Node) bool {
+				switch n := x.(type) {
+				case *ast.AssignStmt:
+					for _, l := range n.Lhs {
+						if es(l) == numVar && !(i == k && n == B[k]) {
+							reassigned = true
+						}
+					}
+				case *ast.IncDecStmt:
+					if es(n.X) == numVar {
+						reassigned = true
+					}
+				case *ast.UnaryExpr:
+					if n.Op == token.AND && es(n.X) == numVar {
+						reassigned = true
+					}
+				}
+				return true
+			})
+		}
+		adopted, strVar, varSet, published := false, "", false, false
+		for _, s := range B[k+1:] {
+			switch n := s.(type) {
+			case *ast.AssignStmt:
+				if len(n.Lhs) == 1 && len(n.Rhs) == 1 {
+					if sel, ok := n.Lhs[0].(*ast.SelectorExpr); ok && sel.Sel.Name == "currentRunNumber" && n.Tok == token.ASSIGN && es(n.Rhs[0]) == numVar {
+						adopted = true
+						adoptPos = n.Pos()
+					}
+					if es(n.Rhs[0]) == "strconv.FormatUint(uint64("+numVar+"), 10)" && n.Tok == token.DEFINE {
+						strVar = es(n.Lhs[0])
+					}
+				}
+			case *ast.ExprStmt:
+				c, fun := callOf(n.X)
+				if c == nil {
+					continue
+				}
+				if strVar != "" && strings.HasSuffix(fun, ".Set") && len(c.Args) == 2 && es(c.Args[0]) == `"run_number"` && es(c.Args[1]) == strVar {
+					varSet = true
+				}
+				ast.Inspect(c, func(x ast.Node) bool {
+					if cl, ok := x.(*ast.CompositeLit); ok && strings.HasSuffix(es(cl.Type), "Ev_RunEvent") {
+						for _, el := range cl.Elts {
+							if kv, isKV := el.(*ast.KeyValueExpr); isKV && es(kv.Key) == "RunNumber" && es(kv.Value) == numVar {
+								published = true
+							}
+						}
+					}
+					return true
+				})
+			}
+		}
+		ft.startNumberAdopted = !reassigned && adopted && varSet && published
+	}
+
+	// (d) nobody else gives the field a non-zero value
+	files, err := filepath.Glob(repo + "/core/environment/*.go")
+	if err != nil {
+		return err
+	}
+	ft.onlyStartSetsNumber = adoptPos.IsValid()
+	nonZero := 0
+	for _, fn := range files {
+		if strings.HasSuffix(fn, "_test.go") {
+			continue
+		}
+		src, err := os.ReadFile(fn)
+		if err != nil {
+			return err
+		}
+		if verifOnly(string(src)) {
+			continue
+		}
+		pf, err := parser.ParseFile(token.NewFileSet(), fn, src, 0)
+		if err != nil {
+			return err
+		}
+		isField := func(e ast.Expr) bool {
+			sel, ok := e.(*ast.SelectorExpr)
+			return ok && sel.Sel.Name == "currentRunNumber"
+		}
+		ast.Inspect(pf, func(x ast.Node) bool {
+			switch n := x.(type) {
+			case *ast.AssignStmt:
+				for i, l := range n.Lhs {
+					if !isField(l) {
+						continue
+					}
+					zero := n.Tok == token.ASSIGN && len(n.Rhs) == len(n.Lhs) && es(n.Rhs[i]) == "0"
+					if !zero {
+						nonZero++
+					}
+				}
+			case *ast.IncDecStmt:
+				if isField(n.X) {
+					ft.onlyStartSetsNumber = false
+				}
+			case *ast.UnaryExpr:
+				if n.Op == token.AND && isField(n.X) {
+					ft.onlyStartSetsNumber = false
+				}
+			case *ast.KeyValueExpr:
+				if id, ok := n.Key.(*ast.Ident); ok && id.Name == "currentRunNumber" {
+					ft.onlyStartSetsNumber = false
+				}
+			}
+			return true
+		})
+	}
+	// exactly one non-zero assignment in the package, and environment.go holds the adopted one
+	ft.onlyStartSetsNumber = ft.onlyStartSetsNumber && nonZero == 1
+	return nil
+}
+
+// leavesFlow: the statement contains (outside nested function literals) a return, goto, break,
+// continue or a call of panic / os.Exit / runtime.Goexit.
+func leavesFlow(s ast.Stmt) bool {
+	found := false
+	ast.Inspect(s, func(x ast.Node) bool {
+		switch n := x.(type) {
+		case *ast.FuncLit:
+			return false
+		case *ast.ReturnStmt, *ast.BranchStmt:
+			found = true
+		case *ast.CallExpr:
+			switch es(n.Fun) {
+			case "panic", "os.Exit", "runtime.Goexit":
+				found = true
+			}
+		}
+		return true
+	})
+	return found
+}
+
+// verifOnly: the file is compiled only under the `verif` build tag (the add-only hook files).
+func verifOnly(src string) bool {
+	for _, l := range strings.Split(src, "\n") {
+		t := strings.TrimSpace(l)
+		if strings.HasPrefix(t, "package ") {
+			return false
+		}
+		if strings.HasPrefix(t, "//go:build ") && strings.Contains(t, "verif") && !strings.Contains(t, "!verif") {
+			return true
+		}
+	}
+	return false
+}
+
 // evalWrap runs the LINKED GetNextUInt32 once with the counter at 2^32-1 (extra `w` steps let a
 // variant that sends more requests run to completion; they are no-ops otherwise).
 func evalWrap(ft *facts) error {
@@ -395,6 +662,9 @@ func genFacts(repo string) (string, error) {
 	if err := consumerFacts(repo, &ft); err != nil {
 		problems = append(problems, "consumers: "+err.Error())
 	}
+	if err := startFacts(repo, &ft); err != nil {
+		problems = append(problems, "before_event: "+err.Error())
+	}
 	if err := evalWrap(&ft); err != nil {
 		problems = append(problems, "evaluation at 2^32-1: "+err.Error())
 	}
@@ -413,6 +683,10 @@ func genFacts(repo string) (string, error) {
 	w("go/ast: Get, ParseUint and CAS each assign err and are immediately followed by `if err != nil { return }`; results are named (value uint32, err error); the function ends in a bare return", "errorsReturned", ft.errorsReturned)
 	w("go/ast: local.Service.NewRunNumber returns cSrc.GetNextUInt32(…) when the source is a *cfgbackend.ConsulSource", "serviceDelegates", ft.serviceDelegates)
 	w("go/ast: every `x, err := ….NewRunNumber()` in core/environment/environment.go is immediately followed by `if err != nil { e.Cancel(err); return }`", "startCancelledOnError", ft.startCancelledOnError)
+	w("go/ast: in before_event (environment.go) every `return` before the top-level `if e.Event == \"START_ACTIVITY\"` sits in the `if errHooks != nil` block of the negative-weight hook pass", "startReachedAfterNegHooksOnly", ft.startReachedAfterNegHooksOnly)
+	w("go/ast: `n, err := the.ConfSvc().NewRunNumber()` is a statement OF the START_ACTIVITY branch (not nested under if/switch/loop, no return before it) and the only NewRunNumber call of the callback", "startCallUnconditional", ft.startCallUnconditional)
+	w("go/ast: n is never re-assigned; statements of the branch assign it to env.currentRunNumber, set run_number to FormatUint(uint64(n),10) and publish Ev_RunEvent{RunNumber: n}", "startNumberAdopted", ft.startNumberAdopted)
+	w("go/ast: in package core/environment (tests and verif-tagged hook files aside) that is the only assignment giving .currentRunNumber a value other than the literal 0; no ++/--/&/composite-literal use", "onlyStartSetsNumber", ft.onlyStartSetsNumber)
 	w("EVALUATED on the linked code: with the counter at 4294967295 GetNextUInt32 returns (0, nil) and writes \"0\"", "wrapsAtMax", ft.wrapsAtMax)
 	w("the evaluation at 2^32-1 ran to completion and gave one of the two expected answers ((0, nil) or an error)", "wrapEvaluated", ft.wrapEvaluated)
 	b.WriteString("end Gen.C07\n")
